@@ -108,13 +108,13 @@ def bounds(tier):
                 "data_types": list(DTYPES), "namespace_sizes": [1, 2, 3], "pool": "base(9)",
                 "concat_list_len_full_pool": 2, "concat_list_len_subpool": 3, "concat_with_current_len": 2,
                 "max_columns": 6, "all_index_subsets_up_to_columns": 4,
-                "self_extension_depth": 0, "name_collision_depth": 1,
+                "self_extension_depth": 0, "name_collision_depth": 1, "name_collision_depth_lists_of_3": 0,
                 "line_budget": LINE_BUDGET, "chunk_states": 24}
     return {"depth": {"dna": [3, 3, 3], "standard": [3, 3, 3], "continuous": [3, 3, 3]},
             "data_types": list(DTYPES), "namespace_sizes": [1, 2, 3], "pool": "base(9)+case-variant+locus-label(11)",
             "concat_list_len_full_pool": 3, "concat_list_len_subpool": 3, "concat_with_current_len": 3,
             "max_columns": 7, "all_index_subsets_up_to_columns": 5,
-                "self_extension_depth": 1, "name_collision_depth": 1,
+                "self_extension_depth": 1, "name_collision_depth": 1, "name_collision_depth_lists_of_3": 0,
             "line_budget": LINE_BUDGET, "chunk_states": 24}
 
 
@@ -561,7 +561,7 @@ def enabled_ops(cfg, state, depth, b):
         plan = concat_plan([arg_snapshot(cfg, b, a, state) for a in lst])
         if plan["status"] == "valid" and maxlen(plan["rows"]) > cap:
             continue
-        if not collide_ok and plan["collide"]:
+        if plan["collide"] and (not collide_ok or (len(lst) >= 3 and depth > b["name_collision_depth_lists_of_3"])):
             continue
         ops.append(op)
     return ops
@@ -1101,6 +1101,15 @@ def _count_state(ctx, cfg, depth, d):
         ctx.count("states_with_character_subsets")
 
 
+def _progress(msg):
+    import os
+    import sys
+    import time
+    if os.environ.get("VERIF_PROGRESS"):
+        sys.stderr.write("[C19 %s] %s\n" % (time.strftime("%H:%M:%S"), msg))
+        sys.stderr.flush()
+
+
 def explore(tier, runner):
     b = bounds(tier)
     ctx = runner.ctx
@@ -1150,7 +1159,9 @@ def explore(tier, runner):
             completed[cfg] = depth + 1
         if not chunks:
             break
+        _progress("depth %d: expanding %d states in %d chunks" % (depth, sum(len(c["states"]) for c in chunks), len(chunks)))
         results = runner.map("run_level", chunks)
+        _progress("depth %d done: transitions=%d hangs=%d" % (depth, ctx.counters.get("transitions", 0), ctx.counters.get("outcome:hang", 0)))
         new = {cfg: [] for cfg in cfgs}
         if depth == 0:
             for cfg in cfgs:            # a concatenation of pool matrices is a history of one operation
